@@ -136,3 +136,4 @@ more("C13", "(eighth round) nosync.Map reads its map with comma-ok only.")
 more("C18", "(eighth round) isStd answers true only from the located package's Goroot flag.")
 more("C15", "(eighth round) $ifaceKeyFor rejects unhashable dynamic types with a run-time error before calling keyFor.")
 more("C17", "(eighth round) a session prepares and compiles each program from the dependency closure of its root, without archives of earlier builds.")
+more("C06", "(eighth round) 64-bit integers convert to float32 through a sticky-bit helper (one rounding).")
